@@ -5,6 +5,7 @@ created once per process so the converter cache sees each exactly once).
 
 from __future__ import annotations
 
+import datetime
 import enum
 
 
@@ -22,6 +23,19 @@ class MyStr(str):
 
 class MyBytes(bytes):
     pass
+
+
+class NotAWorkday(Exception):
+    pass
+
+
+class Workday(datetime.date):
+    """A date subclass whose constructor validates, with an exception of its own (not a ValueError)."""
+    def __new__(cls, year, month=None, day=None):
+        self = super().__new__(cls, year, month, day)
+        if self.weekday() >= 5:
+            raise NotAWorkday(f"{self.isoformat()} is not a workday")
+        return self
 
 
 SUBCLASSES = {'int': MyInt, 'float': MyFloat, 'str': MyStr, 'bytes': MyBytes}
